@@ -100,12 +100,41 @@ func LoadEngine(repo, harnessDir string, pkgDirs []string) (*Engine, error) {
 	if err != nil {
 		return nil, err
 	}
-	nerr := 0
-	for _, p := range pkgs {
-		for _, pe := range p.Errors {
-			fmt.Fprintf(os.Stderr, "load error: %v\n", pe)
-			nerr++
+	countErrs := func(report bool) (int, bool) {
+		n, optional := 0, false
+		for _, p := range pkgs {
+			for _, pe := range p.Errors {
+				if report {
+					fmt.Fprintf(os.Stderr, "load error: %v\n", pe)
+				}
+				if strings.Contains(pe.Pos, "_state.go") {
+					optional = true
+				}
+				n++
+			}
 		}
+		return n, optional
+	}
+	nerr, inOptional := countErrs(false)
+	if nerr > 0 && inOptional {
+		// harness files named *_state.go name unexported identifiers of the code under
+		// test; if a changed tree no longer has them, drop those files and go on with
+		// the harnesses that use the exported API only
+		for virt := range ov {
+			if strings.HasSuffix(virt, "_state.go") {
+				delete(ov, virt)
+				delete(e.overlay, virt)
+				e.loadNotes = append(e.loadNotes, "dropped "+filepath.Base(virt)+": it no longer type-checks against the tree (unexported names changed); its harnesses are skipped")
+			}
+		}
+		cfg.Overlay = ov
+		pkgs, err = packages.Load(cfg, patterns...)
+		if err != nil {
+			return nil, err
+		}
+		nerr, _ = countErrs(true)
+	} else if nerr > 0 {
+		countErrs(true)
 	}
 	if nerr > 0 {
 		return nil, fmt.Errorf("%d package load errors", nerr)
